@@ -177,7 +177,7 @@ def run(ctx) -> None:
         t = ie.test
         lst = t.comparators[0] if isinstance(t, ast.Compare) and isinstance(t.ops[0], ast.In) else None
         vals = {e.value for e in lst.elts if isinstance(e, ast.Constant)} if isinstance(lst, (ast.List, ast.Tuple, ast.Set)) else set()
-        ok = {"false", "none"} <= vals and isinstance(ie.orelse, ast.Constant) and ie.orelse.value is None \
+        ok = vals == {"false", "none"} and isinstance(ie.orelse, ast.Constant) and ie.orelse.value is None \
             and isinstance(ie.body, ast.Subscript) and isinstance(ie.body.slice, ast.Constant) and ie.body.slice.value == 0 \
             and "[1]" in source.src(t.left)
     ctx.ob("C03.R4-propagation", pr[0] if pr else prop, ok, "an aggregating predecessor contributes None (replication stops at aggregation)" if ok else
